@@ -21,18 +21,12 @@ Notation Inv := (inv d sid cl).
 Notation Rel := (rel d sid).
 
 Lemma three_vars a x y z (ts:list mmterm) :
-  listN_eqb (mand_float_vars d a) [x; y; z] = true -> length ts = length (metavars_in_order d a) ->
+  mand_float_vars d a = [x; y; z] -> length ts = length (metavars_in_order d a) ->
   metavars_in_order d a = [x; y; z] /\ x <> y /\ x <> z /\ y <> z /\ exists t1 t2 t3, ts = [t1; t2; t3].
 Proof.
   intros HL L.
   assert (E: metavars_in_order d a = [x; y; z]).
-  { rewrite <- (mand_vars_order d HPF d a eq_refl). unfold mand_float_vars in HL.
-    destruct (map (fun f : label * N * N => snd f) (mand_floats d a)) as [|x' [|y' [|z' [|? ?]]]]; simpl in HL; try discriminate.
-    - destruct (N.eqb x' x); discriminate.
-    - destruct (N.eqb x' x); [destruct (N.eqb y' y)|]; discriminate.
-    - apply andb_true_iff in HL as [H1 H2]. apply andb_true_iff in H2 as [H2 H3]. apply andb_true_iff in H3 as [H3 _].
-      apply N.eqb_eq in H1, H2, H3. subst. reflexivity.
-    - apply andb_true_iff in HL as [_ H2]. apply andb_true_iff in H2 as [_ H2]. apply andb_true_iff in H2 as [_ H2]. discriminate. }
+  { rewrite <- (mand_vars_order d HPF d a eq_refl). exact HL. }
   split; [exact E|].
   assert (ND: NoDup (metavars_in_order d a)) by (apply mio_NoDup; assumption). rewrite E in ND.
   inversion ND as [|? ? N1 ND1]; subst. inversion ND1 as [|? ? N2 ND2]; subst.
@@ -52,11 +46,10 @@ Proof.
   destruct (apply_inv d HPF ctx a ms ms' EF HA) as [ts [rest [L [E1 E2]]]].
   unfold prop1_ok in HB.
   destruct (a_ess a) as [|? ?] eqn:EE; [|discriminate].
-  destruct (a_stmt a) as [tc [|[v|c1 [|[x|? ?] [|[?|c2 [|[y|? ?] [|[x'|? ?] [|? ?]]]] [|? ?]]]] [|? ?]]] eqn:ES; try discriminate.
-  repeat (apply andb_true_iff in HB as [HB ?]).
-  apply N.eqb_eq in HB, H1, H0. subst c1 c2 x'. simpl in ET. subst tc.
-  destruct (two_vars d HPF HND a x y ts H L) as [EM [NE [t1 [t2 ->]]]].
-  simpl in E1. rewrite EM in E2. unfold ssubst in E2. simpl in E2.
+  destruct (mand_float_vars d a) as [|x [|y [|? ?]]] eqn:EMF; try discriminate.
+  apply stmt_eqb_eq in HB. rename HB into ES.
+  destruct (two_vars d HPF HND a x y ts EMF L) as [EM [NE [t1 [t2 ->]]]].
+  simpl in E1. rewrite EM, ES in E2. unfold ssubst, timp in E2. simpl in E2.
   assert (NE': N.eqb x y = false) by (apply N.eqb_neq; exact NE).
   rewrite !N.eqb_refl, NE' in E2.
   pose proof (inv_stack _ _ _ _ _ _ I) as HSt. rewrite E1 in HSt.
@@ -80,14 +73,10 @@ Proof.
   destruct (apply_inv d HPF ctx a ms ms' EF HA) as [ts [rest [L [E1 E2]]]].
   unfold prop2_ok in HB.
   destruct (a_ess a) as [|? ?] eqn:EE; [|discriminate].
-  destruct (a_stmt a) as [tc [|[v|c1 [|[?|c2 [|[x|? ?] [|[?|c3 [|[y|? ?] [|[z|? ?] [|? ?]]]] [|? ?]]]]
-                                      [|[?|c4 [|[?|c5 [|[x1|? ?] [|[y1|? ?] [|? ?]]]] [|[?|c6 [|[x2|? ?] [|[z1|? ?] [|? ?]]]] [|? ?]]]] [|? ?]]]] [|? ?]]] eqn:ES;
-    try discriminate.
-  repeat (apply andb_true_iff in HB as [HB ?]).
-  apply N.eqb_eq in HB, H0, H1, H2, H3, H4, H5, H6, H7, H8.
-  subst c1 c2 c3 c4 c5 c6 x1 x2 y1 z1. simpl in ET. subst tc.
-  destruct (three_vars a x y z ts H L) as [EM [NXY [NXZ [NYZ [t1 [t2 [t3 ->]]]]]]].
-  simpl in E1. rewrite EM in E2. unfold ssubst in E2. simpl in E2.
+  destruct (mand_float_vars d a) as [|x [|y [|z [|? ?]]]] eqn:EMF; try discriminate.
+  apply stmt_eqb_eq in HB. rename HB into ES.
+  destruct (three_vars a x y z ts EMF L) as [EM [NXY [NXZ [NYZ [t1 [t2 [t3 ->]]]]]]].
+  simpl in E1. rewrite EM, ES in E2. unfold ssubst, timp in E2. simpl in E2.
   assert (N1: N.eqb x y = false) by (apply N.eqb_neq; exact NXY).
   assert (N2: N.eqb x z = false) by (apply N.eqb_neq; exact NXZ).
   assert (N3: N.eqb y z = false) by (apply N.eqb_neq; exact NYZ).
@@ -113,13 +102,13 @@ Proof.
   intros EF HB ET I HA.
   destruct (apply_inv d HPF ctx a ms ms' EF HA) as [ts [rest [L [E1 E2]]]].
   unfold mp_ok in HB.
-  destruct (a_ess a) as [|[l1 [tc1 [|[?|c1 [|[x|? ?] [|[y|? ?] [|? ?]]]] [|? ?]]]] [|[l2 [tc2 [|[x'|? ?] [|? ?]]]] [|? ?]]] eqn:EE;
-    try discriminate.
-  destruct (a_stmt a) as [tc [|[y'|? ?] [|? ?]]] eqn:ES; try discriminate.
-  repeat (apply andb_true_iff in HB as [HB ?]).
-  apply N.eqb_eq in HB, H0, H1, H2, H3. subst tc1 tc2 c1 x' y'. simpl in ET. subst tc.
-  destruct (two_vars d HPF HND a x y ts H L) as [EM [NE [t1 [t2 ->]]]].
-  rewrite EM in E1, E2. unfold ssubst in E1, E2. simpl in E1, E2.
+  destruct (mand_float_vars d a) as [|x [|y [|? ?]]] eqn:EMF; try discriminate.
+  apply andb_true_iff in HB as [ES EE]. apply stmt_eqb_eq in ES. apply stmts_eqb_eq in EE.
+  destruct (two_vars d HPF HND a x y ts EMF L) as [EM [NE [t1 [t2 ->]]]].
+  assert (EE': map (fun e : label * stmt => ssubst (combine [x; y] [t1; t2]) (snd e)) (a_ess a)
+               = map (ssubst (combine [x; y] [t1; t2])) [(tc_proved, [timp (TVar x) (TVar y)]); (tc_proved, [TVar x])]).
+  { rewrite <- EE, map_map. reflexivity. }
+  rewrite EM in E1, E2. rewrite EE' in E1. rewrite ES in E2. unfold ssubst, timp in E1, E2. simpl in E1, E2.
   assert (NE': N.eqb x y = false) by (apply N.eqb_neq; exact NE).
   rewrite !N.eqb_refl, ?NE' in E1. rewrite ?N.eqb_refl in E1. rewrite NE', N.eqb_refl in E2.
   pose proof (inv_stack _ _ _ _ _ _ I) as HSt. rewrite E1 in HSt.
